@@ -248,9 +248,9 @@ Proof. vm_compute. reflexivity. Qed.
 
 Lemma utf8_code_4 h x y z :
   h < 8 -> x < 64 -> y < 64 -> z < 64 ->
-  Payload.utf8_code [240 + h; 128 + x; 128 + y; 128 + z] = Ok (((h * 64 + x) * 64 + y) * 64 + z).
+  utf8_code [240 + h; 128 + x; 128 + y; 128 + z] = Some (((h * 64 + x) * 64 + y) * 64 + z).
 Proof.
-  intros Hh Hx Hy Hz. unfold Payload.utf8_code. cbn [length fold_left bind].
+  intros Hh Hx Hy Hz. unfold utf8_code. cbn [length fold_left].
   rewrite land_lead4, !land_cont by assumption. rewrite !lor_shiftl6 by assumption. reflexivity.
 Qed.
 
@@ -278,8 +278,6 @@ Proof.
     rewrite He. fam_tac check_char4; [| discriminate |].
     + unfold pat_char4, T. change [240 + h; 128 + x; 128 + y; 128 + z] with ([240 + h] ++ [128 + x] ++ [128 + y] ++ [128 + z]).
       repeat apply MSeq; apply MSet; unfold in_ranges; cbn; lia.
-    + payload_unfold. unfold dec_utf8, Payload.utf8_decode. rewrite utf8_code_4 by assumption. cbn [bind].
-      rewrite <- Hcv. unfold Payload.char_from_u32.
-      replace (Payload.scalar_ok c) with true; [reflexivity|].
-      unfold printable, scalar_ok in Hp. unfold Payload.scalar_ok. lia.
+    + payload_unfold. unfold dec_utf8. rewrite utf8_code_4 by assumption. rewrite <- Hcv.
+      replace (scalar_ok c) with true; [reflexivity|]. unfold printable in Hp. symmetry. apply andb_true_iff in Hp. destruct Hp as [Hp _]. apply andb_true_iff in Hp. tauto.
 Qed.
